@@ -56,18 +56,35 @@ Resync(e, X) == IF ~e.obj \/ ~Structured(e.f) THEN X
                 ELSE IF WellFormed(e.f) THEN Abs(e.f) ELSE X
 
 \* ---- C07: verdict on a products event ----
+\* one vector pair (x, y) against the dense matrix DM and its transpose DT; r carries the logged results
+JudgeVec(DM, DT, x, y, a, r) ==
+  LET dax == D!MatVec(DM, x)
+      daty == D!MatVec(DT, y)
+  IN IF ~D!SameSeq(r.ax, dax) THEN "multiply"
+     ELSE IF ~D!SameSeq(r.aty, daty) THEN "transpose_multiply"
+     ELSE IF ~D!SameSeq(r.tax, daty) \/ ~D!SameSeq(r.ttx, dax) THEN "explicit-transpose"
+     ELSE IF r.yax # VDot(y, dax) \/ r.atyx # VDot(daty, x) \/ r.yax # r.atyx THEN "adjoint"
+     ELSE IF ~D!SameSeq(r.sax, VScale(dax, a)) \/ ~D!SameSeq(r.saty, VScale(daty, a)) THEN "scale"
+     ELSE ""
+\* the main pair (pairwise distinct non-zero components), the repeated calls, the dense route of the crate, and
+\* the battery zx / zy of vectors with exact zeros (unit vectors e_k for every k, zeros first / last /
+\* alternating, a single non-zero entry, all zero, negative zero) with results zr
 JudgeProducts(e, M) ==
   IF Len(e.x) # M.cols \/ Len(e.y) # M.rows THEN ""                 \* sizes do not fit: not a C07 call
-  ELSE LET dax == MMul(M, e.x)
-           daty == MTMul(M, e.y)
-       IN IF e.panic THEN "panic"
-          ELSE IF ~D!SameSeq(e.ax, dax) THEN "multiply"
-          ELSE IF ~D!SameSeq(e.aty, daty) THEN "transpose_multiply"
+  ELSE IF e.panic THEN "panic"
+  ELSE LET DM == MDense(M)
+           DT == D!Transpose(DM)
+           main == JudgeVec(DM, DT, e.x, e.y, e.a, e)
+           dax == D!MatVec(DM, e.x)
+           daty == D!MatVec(DT, e.y)
+           n == IF Len(e.zx) < Len(e.zy) THEN Len(e.zx) ELSE Len(e.zy)
+           fits == {k \in 1..n : Len(e.zx[k]) = M.cols /\ Len(e.zy[k]) = M.rows}
+           bad == {k \in fits : JudgeVec(DM, DT, e.zx[k], e.zy[k], e.a, e.zr[k]) # ""}
+       IN IF main # "" THEN main
           ELSE IF ~D!SameSeq(e.ax2, dax) \/ ~D!SameSeq(e.aty2, daty) THEN "repeated-call"
-          ELSE IF ~D!SameSeq(e.tax, daty) \/ ~D!SameSeq(e.ttx, dax) THEN "explicit-transpose"
-          ELSE IF e.yax # VDot(e.y, dax) \/ e.atyx # VDot(daty, e.x) \/ e.yax # e.atyx THEN "adjoint"
-          ELSE IF ~D!SameSeq(e.sax, VScale(dax, e.a)) \/ ~D!SameSeq(e.saty, VScale(daty, e.a)) THEN "scale"
           ELSE IF ~D!SameSeq(e.dx, dax) \/ ~D!SameSeq(e.dty, daty) THEN "dense-route"      \* to_dense() and Matrix * Vector
+          ELSE IF Len(e.zr) # n THEN "zero-vector-results-missing"
+          ELSE IF bad # {} THEN "zero-vector-" \o JudgeVec(DM, DT, e.zx[CHOOSE k \in bad : \A k2 \in bad : k <= k2], e.zy[CHOOSE k \in bad : \A k2 \in bad : k <= k2], e.a, e.zr[CHOOSE k \in bad : \A k2 \in bad : k <= k2])
           ELSE ""
 
 Init == l = 1 /\ cur = MEmpty(0, 0) /\ TLCSet(1, 0)
